@@ -190,6 +190,26 @@ func (d *deriver) obligations(dv *Derived, formatter string) {
 			dv.ob("G-MOCK/infrastructure-imports-last", "after-all-vars", firstDirect > lastVar, "Mock registers an import of its own (sync or the source package) before all parameters and results have been named: a parameter of a later interface that is spelled like that package is then renamed although its own signature does not collide with it, and the result depends on the order of the interface arguments")
 		}
 	}
+	// a qualifier copied into the data is final: nothing is registered after it has been read (a later
+	// registration can give that import a new alias, and the copy then names the wrong package)
+	{
+		first := -1
+		var later []string
+		for i, ev := range d.events {
+			if ev.Kind == "execute" {
+				break // qualifiers read by the template are read at print time
+			}
+			if ev.Kind == "qualifier" && first < 0 {
+				first = i
+			}
+			if first >= 0 && (ev.Kind == "addimport" || ev.Kind == "addvar") {
+				later = append(later, ev.Kind+" "+ev.Detail)
+			}
+		}
+		if first >= 0 {
+			dv.ob("G-MOCK/qualifier-final", "no-registration-after-read", len(later) == 0, "the qualifier of %s is copied into a string while imports can still be registered afterwards (%v): a later registration can give this import a new alias (e.g. a source package named like a package added later), and the copied qualifier then names the wrong package", d.events[first].Detail, later)
+		}
+	}
 	if dv.Data == nil {
 		return
 	}
